@@ -5,9 +5,10 @@ use crate::ctx::{Ctx, Part};
 use serde_json::{json, Value};
 
 pub fn run_part(ctx: &mut Ctx, which: &str) {
+    let thorough = ctx.tier.thorough();
     let mut part = Part::new(
         &format!("E5_shuttle_{}", which),
-        "controlled-scheduler exploration (shuttle, DFS over all schedules) of an instrumented copy of the library sources in which every std::sync / std::thread / thread_local! / lazy_static! use is shuttle's: 2-3 threads sharing keys; each thread's result must equal what the same call produces alone, signatures verify, salts differ",
+        &format!("controlled-scheduler exploration (shuttle engine, own exhaustive scheduler with iterative preemption bounding: all schedules with 0, then <= 1, ... then <= {} preemptions{}) of an instrumented copy of the library sources in which every std::sync / std::thread / thread_local! / lazy_static! / OnceLock use is shuttle's: 2-3 threads sharing freshly decoded key objects; each thread's result must equal what the same call produces alone, signatures verify, salts differ", if thorough { 3 } else { 2 }, if thorough { ", then shuttle's unbounded depth-first search under a cap" } else { "" }),
     );
     let bin = std::env::var("FALCON_MC_E5_BIN").unwrap_or_default();
     if bin.is_empty() {
@@ -18,7 +19,7 @@ pub fn run_part(ctx: &mut Ctx, which: &str) {
         ctx.add_part(part);
         return;
     }
-    let out = std::process::Command::new(&bin).arg(which).output();
+    let out = std::process::Command::new(&bin).arg(which).env("E5_MAX_PREEMPTIONS", if thorough { "3" } else { "2" }).env("E5_UNBOUNDED", if thorough { "1" } else { "0" }).output();
     let out = match out {
         Ok(o) => o,
         Err(e) => {
@@ -32,6 +33,13 @@ pub fn run_part(ctx: &mut Ctx, which: &str) {
     let mut seen = 0;
     for line in stdout.lines() {
         let Ok(v) = serde_json::from_str::<Value>(line) else { continue };
+        if v.get("note").is_some() {
+            if v.get("deterministic_under_installed_streams").and_then(|x| x.as_bool()) == Some(false) {
+                ctx.cap("E5: the library draws randomness that the installed streams do not own; the byte-equality oracle is off, verify and distinct-salt oracles remain");
+            }
+            part.set("baseline", v.clone());
+            continue;
+        }
         seen += 1;
         let prog = v.get("program").and_then(|x| x.as_str()).unwrap_or("?").to_string();
         let n = v.get("schedules").and_then(|x| x.as_u64()).unwrap_or(0);
@@ -42,24 +50,27 @@ pub fn run_part(ctx: &mut Ctx, which: &str) {
         if v.get("capped").and_then(|x| x.as_bool()) == Some(true) {
             ctx.cap(&format!("E5: schedule cap reached for '{}' ({} schedules explored)", prog, n));
         }
+        if let Some(pb) = v.get("per_preemption_count") {
+            part.set(&format!("schedules_by_preemption_count[{}]", prog), pb.clone());
+        }
+        if v.get("points_beyond_the_first_4096_not_deviated_from").and_then(|x| x.as_bool()) == Some(true) {
+            ctx.cap(&format!("E5: '{}' has executions with more than 4096 scheduling points; deviations are explored at the first 4096 only", prog));
+        }
         if let Some(f) = v.get("failure").and_then(|x| x.as_str()) {
-            // the failing schedule is printed by shuttle on stderr between quotes
-            let sched = stderr.split("failing schedule:").nth(1).and_then(|s| s.split('"').nth(1)).map(|s| s.trim().to_string()).unwrap_or_default();
-            // before trusting the failure: replay the recorded schedule twice, both must fail the same way
-            if !sched.is_empty() {
-                let again = |_: u32| -> Option<String> {
-                    let o = std::process::Command::new(&bin).arg("replay").arg(which).arg(&sched).output().ok()?;
-                    String::from_utf8_lossy(&o.stdout).lines().filter_map(|l| serde_json::from_str::<Value>(l).ok()).filter_map(|v| v.get("failure").and_then(|x| x.as_str()).map(|s| s.to_string())).next()
-                };
-                let (r1, r2) = (again(1), again(2));
-                if r1.is_none() || r1 != r2 {
-                    crate::ctx::machinery_error(&format!("E5: the failing schedule of '{}' does not replay deterministically ({:?} / {:?}): uncontrolled nondeterminism in the driver", prog, r1, r2));
-                }
+            let prefix = v.get("prefix").and_then(|x| x.as_str()).unwrap_or("").to_string();
+            // before trusting the failure: replay the recorded choice prefix twice, both must fail the same way
+            let again = |_: u32| -> Option<String> {
+                let o = std::process::Command::new(&bin).arg("replay").arg(which).arg(&prefix).env("E5_MAX_PREEMPTIONS", "0").output().ok()?;
+                String::from_utf8_lossy(&o.stdout).lines().filter_map(|l| serde_json::from_str::<Value>(l).ok()).filter(|v| v.get("replayed").is_some()).filter_map(|v| v.get("failure").and_then(|x| x.as_str()).map(|s| s.to_string())).next()
+            };
+            let (r1, r2) = (again(1), again(2));
+            if r1.is_none() || r1 != r2 {
+                crate::ctx::machinery_error(&format!("E5: the failing schedule of '{}' does not replay deterministically ({:?} / {:?})", prog, r1, r2));
             }
             ctx.violation(
-                format!("e5:{}:{}", which, f),
-                format!("under the controlled scheduler, program '{}' fails after {} schedules: {} (schedule {})", prog, n, f, if sched.is_empty() { "not captured".to_string() } else { sched.clone() }),
-                json!({"kind":"e5","which":which,"schedule":sched}),
+                format!("e5:{}:{}", which, f.split(" (schedule").next().unwrap_or(f)),
+                format!("under the controlled scheduler, program '{}' fails after {} schedules: {} (choice prefix {})", prog, n, f, prefix),
+                json!({"kind":"e5","which":which,"prefix":prefix}),
             );
         }
     }
@@ -76,14 +87,14 @@ pub fn replay(case: &Value) -> Result<Option<String>, String> {
         return Err("E5 driver not built (run through ./vf replay)".into());
     }
     let which = case.get("which").and_then(|x| x.as_str()).ok_or("which")?;
-    let sched = case.get("schedule").and_then(|x| x.as_str()).ok_or("schedule")?;
-    let out = std::process::Command::new(&bin).arg("replay").arg(which).arg(sched).output().map_err(|e| e.to_string())?;
+    let prefix = case.get("prefix").and_then(|x| x.as_str()).ok_or("prefix")?;
+    let out = std::process::Command::new(&bin).arg("replay").arg(which).arg(prefix).output().map_err(|e| e.to_string())?;
     for line in String::from_utf8_lossy(&out.stdout).lines() {
         if let Ok(v) = serde_json::from_str::<Value>(line) {
-            if let Some(f) = v.get("failure").and_then(|x| x.as_str()) {
-                return Ok(Some(format!("replayed schedule fails: {}", f)));
+            if v.get("replayed").is_some() {
+                return Ok(v.get("failure").and_then(|x| x.as_str()).map(|f| format!("replayed schedule fails: {}", f)));
             }
         }
     }
-    Ok(None)
+    Err("the driver produced no replay result".into())
 }
